@@ -35,8 +35,7 @@ type guardFact struct {
 
 type vmPay struct {
 	tos, pc, blk *Lin
-	pending      *Lin // size of the operand read that pc has not yet been advanced over
-	pendingKind  string
+	consumed     *Lin     // bytes of the instruction read so far (opcode and operands); the read cursor is pc0 + consumed
 	reads        []string // operand shape so far, e.g. ["B","v","v"]
 	need         int64    // stack entries below entry tos that were touched
 	needSym      string   // symbolic need (POPN)
@@ -59,21 +58,33 @@ func (p *vmPay) Clone() Payload {
 
 // counters is the part of the state a loop iteration must not change.
 func (p *vmPay) counters() string {
-	pend := ""
-	if p.pending != nil {
-		pend = p.pending.String()
+	return fmt.Sprintf("%s|%s|%s|%s|%v", p.tos, p.pc, p.blk, p.cons(), p.reads)
+}
+
+func (p *vmPay) cons() *Lin {
+	if p.consumed == nil {
+		return linConst(0)
 	}
-	return fmt.Sprintf("%s|%s|%s|%s|%v", p.tos, p.pc, p.blk, pend, p.reads)
+	return p.consumed
+}
+
+// readAt records an operand read of the given size at position `at`: reads happen at the cursor, with pc in sync.
+func (p *vmPay) readAt(c *Ctx, at *Lin, size *Lin, kind string, pos token.Pos) {
+	cursor := linSym("pc").add(p.cons())
+	if at == nil || !at.equal(cursor) {
+		p.problems = append(p.problems, fmt.Sprintf("%s: %s operand read at %v, but the bytes read so far end at %s", c.pos(pos), kind, at, cursor))
+	} else if !p.pc.equal(cursor) {
+		p.problems = append(p.problems, fmt.Sprintf("%s: %s operand read while pc (%s) was not advanced over the previous read (%s)", c.pos(pos), kind, p.pc, cursor))
+	}
+	p.reads = append(p.reads, kind)
+	p.consumed = p.cons().add(size)
 }
 
 func (p *vmPay) effectKey() string {
-	pend := ""
-	if p.pending != nil {
-		pend = p.pending.String()
-	}
+	pend := p.cons().String()
 	var ev []string
 	for _, e := range p.events {
-		if e.Kind == "stk:r" || e.Kind == "blk:r" || e.Kind == "stat" {
+		if e.Kind == "stk:r" || e.Kind == "blk:r" || e.Kind == "stat" || e.Kind == "lookup" {
 			continue
 		}
 		ev = append(ev, e.Kind+":"+e.Detail)
@@ -293,8 +304,21 @@ func (c *Ctx) vmModel() (*vmModel, error) {
 			p := e.P.(*vmPay)
 			vp := vmPath{Shape: strings.Join(p.reads, ""), Delta: p.tos.sub(linSym("tos")), Need: p.need, NeedSym: p.needSym, Peak: p.peak,
 				BlkDelta: p.blk.sub(linSym("blockTos")), Events: p.events, Problems: p.problems, Unguarded: p.unguarded, Trace: e.Trace}
-			if p.pending != nil {
-				vp.Problems = append(vp.Problems, "an operand was read but pc was not advanced over it ("+p.pendingKind+")")
+			// where does pc end up, relative to the end of the instruction just read?
+			disp := p.pc.sub(linSym("pc").add(p.cons()))
+			jumpSyms := 0
+			okDisp := disp.C == 0
+			for s, co := range disp.T {
+				if strings.HasPrefix(s, "u16#") && (co == 1 || co == -1) {
+					jumpSyms++
+				} else {
+					okDisp = false
+				}
+			}
+			if !okDisp || jumpSyms > 1 {
+				vp.Problems = append(vp.Problems, fmt.Sprintf("after the instruction pc is at (end of the instruction) %s: it must be the end of the instruction, or that plus/minus the 16-bit operand", signed(disp)))
+			} else if jumpSyms == 1 {
+				vp.PCJump = signed(disp)
 			}
 			switch e.Term {
 			case tReturn:
@@ -306,11 +330,6 @@ func (c *Ctx) vmModel() (*vmModel, error) {
 			case tNone, tContinue:
 			default:
 				vp.Problems = append(vp.Problems, "arm ends with an unexpected branch statement")
-			}
-			for _, ev := range p.events {
-				if ev.Kind == "jump" {
-					vp.PCJump = ev.Detail
-				}
 			}
 			key := fmt.Sprintf("%v|%v|%s", vp.Abort, vp.End, p.effectKey())
 			if seenKey[key] {
@@ -408,16 +427,8 @@ func vmHooks(c *Ctx, m *vmModel) Hooks {
 		case "<vm>.stack":
 			return stackAccess(in, st, e, idx, false, Value{}), true
 		case "<vm>.prog.code":
-			l, ok := idx.asLin()
-			if !ok || !l.equal(p.pc) {
-				p.problems = append(p.problems, c.pos(e.Pos())+": code byte read at an index other than pc")
-				return unknownV(), true
-			}
-			if p.pending != nil {
-				p.problems = append(p.problems, c.pos(e.Pos())+": operand read while pc has not been advanced over the previous one")
-			}
-			p.reads = append(p.reads, "B")
-			p.pending, p.pendingKind = linConst(1), "B"
+			l, _ := idx.asLin()
+			p.readAt(c, l, linConst(1), "B", e.Pos())
 			return tagV("operand", in.freshSym("byte")), true
 		case "<vm>.prog.constants":
 			d := fmt.Sprint(idx)
@@ -435,6 +446,7 @@ func vmHooks(c *Ctx, m *vmModel) Hooks {
 						break
 					}
 				}
+				p.events = append(p.events, vmEvent{Kind: "lookup", Detail: "Fields of " + base + "[" + idx.String() + "]", Pos: e.Pos()})
 				return tagV("lookup", "Fields of "+base+"["+idx.String()+"]"), true
 			}
 			return Value{}, false
@@ -465,16 +477,10 @@ func vmHooks(c *Ctx, m *vmModel) Hooks {
 				return true
 			}
 			if name == "pc" {
-				adv := l.sub(*cur)
-				switch {
-				case p.pending != nil && adv.equal(p.pending):
-					p.pending = nil
-				case p.pending == nil && (adv.coef("tos") == 0):
-					// a jump: pc += operand / pc -= operand
-					p.events = append(p.events, vmEvent{Kind: "jump", Detail: signed(adv), Pos: lhs.Pos()})
-				default:
-					p.problems = append(p.problems, fmt.Sprintf("%s: pc advanced by %s while the operand just read is %s long", c.pos(lhs.Pos()), adv, p.pending))
-					p.pending = nil
+				// stepping over what was just read brings pc to the cursor; anything else is a jump, judged at the end of the path
+				cursor := linSym("pc").add(p.cons())
+				if !l.equal(cursor) {
+					p.events = append(p.events, vmEvent{Kind: "jump", Detail: signed(l.sub(cursor)), Pos: lhs.Pos()})
 				}
 			}
 			if name == "tos" {
@@ -662,35 +668,24 @@ func vmHooks(c *Ctx, m *vmModel) Hooks {
 			if !ok {
 				return nil, false
 			}
-			lo, ok1 := evalLin(se.Low)
+			lo, _ := evalLin(se.Low)
 			hi, ok2 := evalLin(se.High)
-			if !ok1 || !lo.equal(p.pc) {
-				p.problems = append(p.problems, c.pos(call.Pos())+": u16 operand read at an offset other than pc")
-			}
-			if se.High != nil && (!ok2 || !hi.sub(lo).equal(linConst(2))) {
+			if se.High != nil && lo != nil && (!ok2 || !hi.sub(lo).equal(linConst(2))) {
 				p.problems = append(p.problems, c.pos(call.Pos())+": u16 operand read from a window that is not 2 bytes")
 			}
-			if p.pending != nil {
-				p.problems = append(p.problems, c.pos(call.Pos())+": operand read while pc has not been advanced over the previous one")
-			}
-			p.reads = append(p.reads, "H")
-			p.pending, p.pendingKind = linConst(2), "H"
+			p.readAt(c, lo, linConst(2), "H", call.Pos())
 			return one(st, linV(linSym(in.freshSym("u16")))), true
 		case "uvarintFromBytes":
 			se, ok := codeSlice(call.Args[0])
 			if !ok {
 				return nil, false
 			}
-			lo, ok1 := evalLin(se.Low)
-			if !ok1 || !lo.equal(p.pc) || se.High != nil {
-				p.problems = append(p.problems, c.pos(call.Pos())+": uvarint operand read at an offset other than pc (or from a bounded window)")
+			lo, _ := evalLin(se.Low)
+			if se.High != nil {
+				p.problems = append(p.problems, c.pos(call.Pos())+": uvarint operand read from a bounded window")
 			}
-			if p.pending != nil {
-				p.problems = append(p.problems, c.pos(call.Pos())+": operand read while pc has not been advanced over the previous one")
-			}
-			p.reads = append(p.reads, "v")
 			n := linSym(in.freshSym("n"))
-			p.pending, p.pendingKind = n, "v"
+			p.readAt(c, lo, n, "v", call.Pos())
 			x := linV(linSym(in.freshSym("uv")))
 			return one(st, Value{K: vTuple, Tup: []Value{x, linV(n)}}), true
 		}
